@@ -59,7 +59,7 @@ DiffFields(a, b) == {f \in {"ss", "nk", "ch", "holds", "srv", "lp", "cfg"} : a[f
 
 Eval(i) ==
   LET rec == Trace[i] IN
-  IF rec.k = "reset" THEN TRUE
+  IF rec.k \in {"reset", "end"} THEN TRUE
   ELSE
     LET pre  == StOf(Trace[i - 1].post)
         post == StOf(rec.post)
